@@ -3,7 +3,7 @@ import json, itertools
 import kdf
 
 THEOREMS = ["Kdf.Props.C17.invoke_eq_spec", "Kdf.Props.C17.passthrough_transparent_of",
-            "Kdf.Props.C17.add_del_restores", "Kdf.Props.C17.del_passthrough_spec",
+            "Kdf.Props.C17.add_del_restores", "Kdf.Props.C17.del_passthrough",
             "Kdf.Props.C17.forwarders_ok", "Kdf.Props.C17.passthrough_transparent",
             "Kdf.Props.C17.invoke_never_diverges"]
 NH = 7
@@ -45,25 +45,56 @@ def gen(R):
     return out
 
 
-def to_text(stacks):
-    lines = []
+def scripts(R, stacks):
+    """Per stack: invoke all hooks; for a sample of stacks also delete layers in
+    random (non-LIFO) order, invoking all hooks after each removal."""
+    out = []
     for s in stacks:
+        ops = [("inv", h) for h in range(NH)]
+        if len(s) >= 2 and R.rng.random() < 0.5:
+            live = len(s)
+            while live > 0:
+                i = R.rng.randrange(live)
+                ops.append(("del", i))
+                live -= 1
+                ops += [("inv", h) for h in range(NH)]
+        out.append(ops)
+    return out
+
+
+def to_text(stacks, scr):
+    lines = []
+    for s, ops in zip(stacks, scr):
         lines.append("stack %d %s" % (len(s), " ".join("; %d %d" % pm for pm in s)))
-        for h in range(NH):
-            lines.append("inv %d" % h)
+        lines += ["%s %d" % o for o in ops]
     return "\n".join(lines) + "\n"
+
+
+def spec_ids(stack):
+    """attach the stable implementation-id base (height at creation) to each layer"""
+    n = len(stack)
+    return [(priv, mask, (n - 1 - i) * 8) for i, (priv, mask) in enumerate(stack)]
+
+
+def spec2(layers, h):
+    n = len(layers)
+    for i, (priv, mask, base) in enumerate(layers):
+        if mask >> h & 1:
+            return "called %d %d %d" % (base + h, priv, n - i)
+    return "base %d" % h
 
 
 def run(R):
     facts, changed = R.extract()
     proof = R.prove(["Kdf.Props.C17"], THEOREMS)
     stacks = gen(R)
-    text = to_text(stacks)
+    scr = scripts(R, stacks)
+    text = to_text(stacks, scr)
     exe = R.build_harness("s_cb", ["s_cb.c"])
     rc, out, err = R.run_harness(exe, stdin_text=text, env={"ASAN_OPTIONS": "detect_leaks=0:handle_segv=0:detect_stack_use_after_return=0"})
     impl = kdf.obs(out)
     model = kdf.obs(R.run_driver("cb", text))
-    exp_n = len(stacks) * NH
+    exp_n = sum(len(o) for o in scr)
     if len(impl) != exp_n:
         raise kdf.CheckBroken("cb harness produced %d lines, expected %d; rc=%s\n%s" % (len(impl), exp_n, rc, err[-2000:]))
     mism = kdf.diff_streams(impl, model)
@@ -71,25 +102,33 @@ def run(R):
     fails = []
     kinds = {}
     nontrivial = set()
-    for si, s in enumerate(stacks):
-        for h in range(NH):
-            got = impl[si * NH + h]
-            want = spec(s, h)
-            kind = ("passthrough-top" if s and not (s[0][1] >> h & 1) else "override-top" if s else "empty")
+    k = 0
+    for si, (s, ops) in enumerate(zip(stacks, scr)):
+        layers = spec_ids(s)
+        ndel = 0
+        for oi, (op, arg) in enumerate(ops):
+            got = impl[k]; k += 1
+            if op == "del":
+                del layers[arg]
+                ndel += 1
+                continue
+            h = arg
+            want = spec2(layers, h)
+            kind = ("after-del/" if ndel else "") + ("passthrough-top" if layers and not (layers[0][1] >> h & 1) else "override-top" if layers else "empty")
             kinds[kind] = kinds.get(kind, 0) + 1
-            if s and not (s[0][1] >> h & 1):
-                nontrivial.add((tuple(s), h))
+            if layers and not (layers[0][1] >> h & 1):
+                nontrivial.add((tuple(layers), h))
             if got != want:
-                fails.append((len(s), si, h, got, want))
+                fails.append((len(s) + ndel, si, oi, h, got, want))
     if fails:
         fails.sort()
-        d, si, h, got, want = fails[0]
-        R.violation("hook %d on stack %s (top first, (priv,mask)): implementation gave '%s', the previously "
-                    "installed implementation with its own record would give '%s'" % (h, stacks[si], got, want),
-                    dict(stream="cb", stack=stacks[si], hook=h, got=got, want=want,
-                         input="stack %d %s\ninv %d\n" % (len(stacks[si]), " ".join("; %d %d" % pm for pm in stacks[si]), h),
-                         broken_theorems=proof["broken"], n_failing=len(fails)),
-                    key="cb:h%d" % h if False else None)
+        d, si, oi, h, got, want = fails[0]
+        R.violation("hook %d on stack %s (top first, (priv,mask)) after ops %s: implementation gave '%s', the previously "
+                    "installed implementation with its own record would give '%s'" % (h, stacks[si], scr[si][:oi], got, want),
+                    dict(stream="cb", stack=stacks[si], ops=scr[si][:oi + 1], hook=h, got=got, want=want,
+                         input="stack %d %s\n" % (len(stacks[si]), " ".join("; %d %d" % pm for pm in stacks[si])) +
+                               "".join("%s %d\n" % o for o in scr[si][:oi + 1]),
+                         broken_theorems=proof["broken"], n_failing=len(fails)))
     elif proof["broken"] or mism is not None:
         R.violation("proof obligation or correspondence broken: theorems %s; first differing line %s" %
                     (proof["broken"], mism),
@@ -104,12 +143,12 @@ def run(R):
                              "tools/extract.py (regex over next_*_cb and addrxlat_ctx_add_cb)",
                              "harness/s_cb.c + gcc + ASan"],
                broken_theorems=proof["broken"], generated_facts=facts.get("cb"),
-               evaluations=len(stacks) * NH, distinct_nontrivial=len(nontrivial),
+               evaluations=exp_n, distinct_nontrivial=len(nontrivial),
                rule="stacks of 0..8 layers (exhaustive for depth<=2 over 16 structured masks, random beyond), each "
                     "followed by the same stack without its top layer, all 7 hooks; non-trivial = distinct (stack,hook) "
                     "whose top layer leaves the hook untouched",
                traces_validated_against_impl=len(impl), correspondence_first_diff=mism,
                case_kinds=kinds,
-               samples=[dict(stack=stacks[i], results=impl[i * NH:(i + 1) * NH]) for i in (1, len(stacks) // 2, len(stacks) - 2)])
+               samples=[dict(stack=stacks[i], ops=scr[i][:12]) for i in (1, len(stacks) // 2, len(stacks) - 2)])
     return "proof", cov, ["an implementation's behaviour is a function of (its identity, the record it is called with)",
                           "C indirect calls behave as modelled; stack overflow of the real code is reported as 'diverge'"]
